@@ -126,7 +126,7 @@ def handle (st : St) (idx : Nat) (line : String) : St × String :=
          (st, emit idx impl (judgeAliasHist dict a nl ((kv rest "g").getD "same") implToks))
        | none => bad)
     | "conn" :: "serve" :: rest =>
-      (st, emit idx impl (judgeConn dict ((kvNat rest "n").getD 1) (kv rest "h" == some "mux") (kv rest "x" == some "1") ((kv rest "ev").getD "") implToks))
+      (st, emit idx impl (judgeConn dict ((kvNat rest "n").getD 1) (kv rest "h" == some "mux" || kv rest "h" == some "mux2") (kv rest "x" == some "1") ((kv rest "ev").getD "") implToks (kv rest "h" == some "mux2")))
     | "conn" :: "accept" :: rest => (st, emit idx impl (judgeAccept ((kv rest "ev").getD "") implToks))
     | "conn" :: "cwrite" :: _ => (st, emit idx impl (judgeCwrite implToks))
     | "stream" :: "read" :: rest =>
